@@ -356,6 +356,9 @@ func (ba *BA) lin0(v ssa.Value) Lin {
 			if ia, ok := x.X.(*ssa.IndexAddr); ok && isByteSlice(ia.X.Type()) {
 				return ba.atom("v:"+x.Name(), true)
 			}
+			if k, ok := ba.stableFieldKey(x); ok {
+				return ba.atom("fld:"+k, isUnsigned(x.Type()))
+			}
 			return ba.atom("v:"+x.Name(), isUnsigned(x.Type()))
 		}
 	case *ssa.Phi:
@@ -508,6 +511,9 @@ func (ba *BA) lenOf(s ssa.Value) Lin {
 		if x.Op == token.MUL {
 			if fv := ba.forward(x); fv != nil {
 				return ba.lenOf(fv)
+			}
+			if k, ok := ba.stableFieldKey(x); ok {
+				return ba.atom("len(fld:"+k+")", true)
 			}
 		}
 	case *ssa.Convert:
@@ -863,4 +869,31 @@ func unquote(s string) (string, error) {
 		return s[1 : len(s)-1], nil
 	}
 	return s, fmt.Errorf("not quoted")
+}
+
+// stableFieldKey: a structural name for the value loaded from a field address that no instruction of the
+// function stores to, so that two loads of the same field are one atom.
+func (ba *BA) stableFieldKey(load *ssa.UnOp) (string, bool) {
+	names := pathNames(load.X)
+	if len(names) == 0 {
+		return "", false
+	}
+	root := rootOf(load.X)
+	rn := ""
+	switch r := root.(type) {
+	case *ssa.Parameter:
+		rn = fmt.Sprintf("P%d", ba.paramIndex(r))
+	case *ssa.Global:
+		rn = "G:" + r.Name()
+	default:
+		return "", false
+	}
+	for _, b := range ba.fn.Blocks {
+		for _, in := range b.Instrs {
+			if s, ok := in.(*ssa.Store); ok && sameAddrIdx(s.Addr, load.X) {
+				return "", false
+			}
+		}
+	}
+	return rn + "." + strings.Join(names, "."), true
 }
